@@ -14,7 +14,7 @@ ObjText == "{\"a\":1,\"c\":\"z\"}"
 ObjM == << <<"a", "int", "", WOf(1)>>, <<"c", "str", "z", W0>> >>
 \* an object carrying members of the JSON types the scalar setters cannot create
 ObjText2 == "{\"r\":1.5,\"n\":null,\"o\":{\"x\":1},\"l\":[true]}"
-ObjM2 == << <<"l", "arr", "[true]", W0>>, <<"n", "null", "null", W0>>, <<"o", "obj", "{\"x\":1}", W0>>, <<"r", "real", "real", W0>> >>
+ObjM2 == << <<"l", "arr", "[true]", W0>>, <<"n", "null", "null", W0>>, <<"o", "obj", "{\"x\":1}", W0>>, <<"r", "real", "1.5", W0>> >>
 \* an object whose member "o" is again an object, with other keys than ObjText2's: a whole-object set with
 \* replace overwrites the stored "o", it does not merge into it
 ObjText3 == "{\"o\":{\"y\":2}}"
